@@ -1,6 +1,9 @@
 """Worker.decompress (py7zr/py7zr.py): termination (C05), request bound (C20), event accounting (C18),
 folder-CRC guard (C04), size accounting (C01/C09).  Abstract mode with exact integer arithmetic."""
-import z3
+try:
+    import z3
+except Exception:  # concrete-only interpreter
+    z3 = None
 
 from pyvc.contract import Contract, ForAll, LoopSpec, RaiseSpec, contract
 from pyvc.values import And, Implies, Not, Or, L, ite, eq, SBool, SInt, SOpq, truthy
